@@ -15,4 +15,9 @@ cd $V/harness
 export CARGO_NET_OFFLINE=true RUSTFLAGS="--cfg virtio_drivers_verif" CARGO_TARGET_DIR=$V/build/target
 timeout 3000 cargo build --offline
 timeout 3000 cargo build --offline --release
+# second build configuration of the crate: without the cargo features alloc / embedded-io (harness variant of ./check, see NOALLOC_PROPS
+# there); `na-hooks` when the checkout carries the alloc-less private-state hooks (corpus/proposals/noalloc_hook.diff)
+NAF=""; grep -q "fn verif_shadow_desc" /repo/src/queue.rs && NAF="--features na-hooks"
+CARGO_TARGET_DIR=$V/build/target_noalloc timeout 3000 cargo build --offline --no-default-features $NAF
+CARGO_TARGET_DIR=$V/build/target_noalloc timeout 3000 cargo build --offline --no-default-features $NAF --release
 echo setup-ok
